@@ -496,7 +496,7 @@ func (p *Parser) collectSpecs(
 	return nil
 }
 
-var importStmtPrefix = []byte("import ")
+var importStmtPrefix = []byte("import")
 
 func extractImports(filename string, content []byte) (importsInput bytes.Buffer) {
 	// non-sysl specs remote reference file fetching is not yet supported.
@@ -507,8 +507,11 @@ func extractImports(filename string, content []byte) (importsInput bytes.Buffer)
 	scanner := bufio.NewScanner(bytes.NewReader(content))
 	scanner.Split(bufio.ScanLines)
 	for scanner.Scan() {
-		if bytes.HasPrefix(scanner.Bytes(), importStmtPrefix) {
-			importsInput.Write(scanner.Bytes())
+		// like the lexer: the keyword followed by a blank or a tab
+		line := scanner.Bytes()
+		if bytes.HasPrefix(line, importStmtPrefix) && len(line) > len(importStmtPrefix) &&
+			(line[len(importStmtPrefix)] == ' ' || line[len(importStmtPrefix)] == '\t') {
+			importsInput.Write(line)
 			importsInput.WriteByte('\n')
 		}
 	}
